@@ -256,35 +256,48 @@ def check_impl(cx, rep, f, im, sub, inst, mname, file, line):
 
 
 def check_polyn_translate(cx, rep, a, inst, file, line):
+    """PolyN::translate, decided on the final coefficient sequence (any way of getting there):
+    empty ⇒ exactly [v]; non-empty ⇒ same length, c[0] + v in front, every other coefficient untouched"""
+    from ..terms import simp
     it, st = a.it, a.state
     v = it.read(st, a.args[0].root, a.args[0].path)
     S = ('seq', 'self.0')
     lenS = ('len', S)
     probs = []
     seq = v.fields[0].seq if isinstance(v, Struct) and isinstance(v.fields[0], VecV) else None
-    want_ne = SeqUpd(SeqSym('self.0'), ('ic', 0), ('f+', ('elem', S, ('ic', 0), ''), sym('v')))
-    want_e = SeqPush(SeqSym('self.0'), sym('v'))
-    ne = ('icmp', 'ne', lenS, ('ic', 0))
-
-    def pick(x, cond_true):
-        if isinstance(x, SelV):
-            c = x.cond
-            if c == ne:
-                return pick(x.a if cond_true else x.b, cond_true)
-            if c == ('icmp', 'eq', lenS, ('ic', 0)):
-                return pick(x.b if cond_true else x.a, cond_true)
-            return x
-        return x
     if seq is None:
         probs.append('self.0 is no longer a vector value')
     else:
-        g_ne = pick(seq, True)
-        g_e = pick(seq, False)
-        ok_ne = g_ne == want_ne or (isinstance(g_ne, SeqUpd) and g_ne.seq == SeqSym('self.0') and g_ne.idx == ('ic', 0)
-                                    and g_ne.val in (('f+', ('elem', S, ('ic', 0), ''), sym('v')), ('f+', sym('v'), ('elem', S, ('ic', 0), ''))))
-        if not ok_ne:
-            probs.append('non-empty: coefficients become %s, expected c[0] += v only' % (it.abstract(st, g_ne),))
-        if g_e != want_e:
-            probs.append('empty: coefficients become %s, expected [v]' % (it.abstract(st, g_e),))
-    rep.ob('translate', inst, not probs, '; '.join(probs) or 'len=0 ⇒ [v]; else c[0] += v, length unchanged',
+        kappa = sym('κ')
+        for empty in (True, False):
+            asm = {('icmp', 'eq', lenS, ('ic', 0)): empty, ('icmp', 'ne', lenS, ('ic', 0)): not empty,
+                   ('icmp', 'eq', kappa, ('ic', 0)): False, ('icmp', 'ne', kappa, ('ic', 0)): True}
+            try:
+                n2 = simp(it.seq_len(seq), asm)
+                e0 = it.seq_get(seq, ('ic', 0), st)
+                nf = NF(asm)
+                nfl = NF(asm)
+                if empty:
+                    if not (nfl(n2) - nfl(lenS)).equals(RF.const(1)):
+                        probs.append('empty: length becomes %s, expected 1' % term_str(n2))
+                    if not nf(simp(e0, asm)).equals(nf(sym('v'))):
+                        probs.append('empty: coefficient 0 becomes %s, expected v' % term_str(simp(e0, asm))[:120])
+                else:
+                    if not nfl(n2).equals(nfl(lenS)):
+                        probs.append('non-empty: length becomes %s, expected unchanged' % term_str(n2))
+                    want0 = nf(('elem', S, ('ic', 0), '')) + nf(sym('v'))
+                    g0 = simp(e0, asm)
+                    if not nf(g0).equals(want0) or count_ops(g0) > 1:
+                        probs.append('non-empty: coefficient 0 becomes %s, expected c[0] + v (one rounding)' % term_str(g0)[:120])
+                    ek = simp(it.seq_get(seq, kappa, st), asm)
+                    if ek != ('elem', S, kappa, ''):
+                        probs.append('non-empty: coefficient κ ≠ 0 becomes %s, expected unchanged' % term_str(ek)[:120])
+            except Unsupported as e:
+                probs.append('cannot read the resulting coefficients: %s' % e)
+    rep.ob('translate', inst, not probs, '; '.join(probs) or 'len=0 ⇒ [v]; else c[0] += v, length and other coefficients unchanged',
            fn=a.f['path'], file=file, line=line, msg='PolyN::translate: ' + '; '.join(probs))
+
+
+def count_ops(t):
+    from .rounding import count_rounded_ops
+    return count_rounded_ops(t)
